@@ -11,8 +11,8 @@ META = {
     "technique": "Rocq proofs over a Gallina model of the BDD apply algorithms (apply_not / apply_bin / apply_ite, variable creation) in the AllocResult error monad with a node budget (coq/Mgr/Oom.v on top of the C02 model; both recursors: sequential '?' and the parallel join that still runs the sibling branch): refinement of the unbounded algorithms, state after a failure, exactness, monotonicity, retry after a collection; correspondence by capacity-sweep fault enumeration on the real managers: every script is first measured on a large manager and then run at EVERY inner-node capacity 0..need+2 (MTBDD also every terminal capacity), so that each allocation point is the failing one in some run, for bdd/bcdd/zbdd/mtbdd with 1, 2 and 8 threads, followed by drop-all + gc + capacity probe + retry on the same manager; for BDD (1 thread) the extracted bounded model predicts every single outcome (out-of-memory or not, nodes stored afterwards, result table); the same models + theorems + op-by-op prediction for the complement-edge BDD, ZBDD and MTBDD rule sets (coq/Mgr/OomGen.v error-monad combinators, OomBcdd.v, OomZbdd.v, OomMtbdd.v; MTBDD with two budgets: inner nodes and terminals)",
     "category": "proof",
     "design_ref": "DESIGN.md section 5, C14",
-    "level_text": "Theorems (coq/Props/C14.v, 163 = 66 + 97 for the other rule sets (last paragraph), all closed under the global context; for every capacity, every cache that only serves what was added, either recursor at every depth): oom_never_wrong (a result of the bounded run is literally the result of the unbounded run of the C02 model, hence the pointwise connective), oom_safe (after Err(OutOfMemory) the table is a well-formed BDD table extending the old one with a correct cache; handle list unchanged, every old reference valid with the same meaning, the nodes left behind unreachable from every handle, the reachable part unchanged; the store really is full), oom_no_panic (result or out-of-memory are the only outcomes: no unwrap panics, no divergence), oom_exact (fails if and only if the table of the unbounded run does not fit; hence failing or not is independent of the recursor), oom_retry / oom_monotone (fits => succeeds with exactly that result; success is monotone in the capacity and independent of the recursor), oom_var_exact (variable creation), collected_ok + oom_recover (failure, handles dropped, collection = restriction to the reachable part: well-formed sub-table without the garbage of the failed attempt, and the retry is again 'correct result iff it fits'), concrete non-vacuity examples; C14_own_* (ownership on the error paths, model coq/Mgr/OomOwn*.v on the state of the C07 interleaving model: table with reference counts + multiset of owned edges, every clone_edge / drop_edge / get_or_insert / EdgeDropGuard / EdgeVecDropGuard / `?` explicit, guard placement of recursor.rs and apply_rec.rs; not, 8 binary operators, ite, substitute_prepare + substitute + substitute_edge, quant): own_balance (every outcome: the tokens owned afterwards are exactly the caller's plus - on Ok - one for the result: nothing leaked, nothing double-released; no hypothesis), own_counts (CInv = exact reference counts preserved by every outcome; WF and rc_exact_b of the snapshot), own_total (never stuck: no double release, no count underflow, get_or_insert preconditions, unwraps), own_err_collect (after Err the collection of ConcGc.v leaves exactly the nodes of the original table reachable from the caller's tokens, entry by entry - count included - the table a collection of the state before would give), own_balance_late_*_refuted (the seeded guard placements - recursor guards after the second `?`, vector guard of substitute_prepare only at the final Ok - violate balance and rollback on concrete inputs). Tie to the code: fault enumeration by capacity sweep on the real managers (see technique); required of every run: each operation returns out-of-memory or the result demanded by the extracted spec layer; no panic, abort or hang (watchdog, child process); after every operation - in particular after every failed one - the lifted manager passes the extracted audits wf_full_b (C03) and rc_first_bad/rc_exact_b (C05: exact reference counts, i.e. everything acquired was released), every earlier handle has its old value table, canonicity holds; after DROPALL + GC no node survives, the capacity probe fills the store completely (no slot was lost on any failure path), and the retry of the whole script succeeds without any out-of-memory when the capacity is at least the measured need; for kind=bdd, 1 thread, capacity < 100 the extracted bounded model (no cache, sequential recursor) run on the snapshot before each NOT / binary operator / ITE / VAR / NVAR predicts the implementation exactly; for every such NOT / binary operator / ITE (failing ones with 1 thread only) the extracted ownership model (coq/Mgr/OomOwnTie.v: snapshot -> state, own_inv_b = CInv must hold) is run as well and must have the same outcome, own exactly the harness's handles afterwards (a result being stored in its slot) and predict the table after the operation node by node up to renaming WITH its reference counts (garbage of a failed run included). Other rule sets (C14_bcdd_*, C14_zbdd_*, C14_mt_*; models coq/Mgr/OomBcdd.v, OomZbdd.v, OomMtbdd.v = the algorithms of the C02 / C09 / C10 models once more in the error monad, function by function, on the combinators of OomGen.v: gbind = `?`, gjoin2 = rec.binary / ternary / binary_ternary of either recursor, gfin = reduce(..)? + cache insertion): never_wrong (a result is literally the result of the unbounded model, hence the pointwise connective / set operation / arithmetic operation), safe (after Err: the invariant of the kind - BcOK / ZbddOK + tautology chain / MtOK - with a correct cache, table only extended, intact_c / intact_z / intact_m: handle list, order, every stored node and terminal unchanged, every valid edge with the same semc / semz / semk under every fuel, every handle the same value, added nodes unreachable from every handle, live part unchanged; store full), no_panic, exact (fails iff the table of the unbounded run does not fit; MTBDD: iff inner nodes OR terminals do not fit - get_terminal fails iff the value is new and all terminal slots are in use; ite / restrict never touch the terminal store), outcome independent of the recursor (bcdd, zbdd; the MTBDD code has no recursor), retry, monotone in the capacity (MTBDD: in both), for bcdd: the 8 operators (through apply_bin And/Xor and tag flips), ite, negation (a tag flip: total), var; zbdd: union / intsec / diff, not, the 8 Boolean operators (symm_diff; nand / nor / equiv as two phases; imp through ite), ite (incl. binary_ternary), singleton; mtbdd: the 6 arithmetic operators, ite, restrict, constant, var (three fallible steps); concrete non-vacuity tables with every outcome, garbage after a failure, recursors differing in the cache of the failed run, and the exactness theorem instantiated for ALL capacities. Tie: for kind=bcdd / zbdd (capacity < 100) and mtbdd the extracted bounded models run on the snapshot before each covered operation (bcdd: NOT / 8 operators / ITE / VAR / NVAR; zbdd: UNION / INTSEC / DIFF / NOT / 8 operators / ITE / SINGLETON / MAKENODE; mtbdd: ADD .. MAX / ITE / CONSTN / VAR / RESTRICT incl. the harness's cube construction step by step; both the node-capacity and the terminal-capacity sweep) predict out-of-memory or not, the stored nodes and (mtbdd) stored terminals afterwards - after a failed run the garbage - and the result's value table; bcok_b / zbdd_ok_b + zchain_ok_b / mt_ok_b (the hypotheses) are evaluated on every snapshot.",
-    "level_note": "Partial / not proved: modelled with a budget are: plain BDD (apply_not, apply_bin for all 8 operators, apply_ite, var/not_var), BCDD (8 operators, ite, not, var/not_var), ZBDD (union / intsec / diff, not, 8 Boolean operators, ite, singleton, make_node), MTBDD (6 arithmetic operators, ite, restrict, constant, var; node and terminal budget); NOT modelled with a budget (fault enumeration only): quantification, substitution, restrict and pick_cube_dd of BDD / BCDD, ZBDD subset0 / subset1 / change / restrict / var_edge / pick, MTBDD value-table construction (a harness composite of the modelled operations), all rule sets' sat / eval queries (they do not allocate). The recovery theorems (drop + gc + retry, oom_recover_*) and the ownership model (C14_own_*) exist for the plain BDD rule set only; for the other kinds 'retry succeeds once space is free' is oom_retry (any table in which the result fits) + the enumeration's retry phase, and 'everything acquired is released' is the exact-count audit after every failed operation. The MTBDD algorithms have no parallel recursor in the code (always sequential), so there is no recursor parameter there. The parallel recursor is modelled as 'both branches run, in sequence' (the real interleaving of node creation between threads is not modelled; multi-threaded runs are checked by enumeration). Reference counts are not part of the model coq/Mgr/Oom.v ('releases everything it had acquired' = 'no node created by the failed run is reachable from a handle'); they are in the ownership model coq/Mgr/OomOwn*.v (C14_own_*: plain BDD rule set; not / binary operators / ite / substitute_prepare / substitute / substitute_edge / quant; restrict, apply_quant, pick_cube_dd and the other rule sets are not modelled there), whose correspondence run covers NOT / binary / ITE operations (successful ones with any number of threads, failing ones with one thread: table with counts after the operation); substitution and quantification of the ownership model are proof-only, the code's behaviour there is checked by the exact-count audit (rc_first_bad on the lifted snapshot after every failed operation = theorem own_counts on the code). The parallel recursor is sequentialised in the ownership model as well; terminal reference counts are not modelled (as in Conc.v). An a-priori (product) bound on the node need is not proved: oom_retry is stated relative to the nodes the unbounded run creates, which is what the check measures. gc is specified (collected = restriction to the reachable part) rather than modelled as an algorithm (that gc does this on the real manager is C05). Excluded by documented design: add_vars / manager creation for ZBDD and level_swap (reordering) call abort() on OOM - capacities below the number of ZBDD variables and reordering under exhausted capacity are not swept; DDDMP import under OOM is C15. Trusted: Coq kernel, extraction, the two OCaml drivers, Rust harness, public accessor API.",
+    "level_text": "Theorems (coq/Props/C14.v, 163 = 66 + 97 for the other rule sets (last paragraph), all closed under the global context; for every capacity, every cache that only serves what was added, either recursor at every depth): oom_never_wrong (a result of the bounded run is literally the result of the unbounded run of the C02 model, hence the pointwise connective), oom_safe (after Err(OutOfMemory) the table is a well-formed BDD table extending the old one with a correct cache; handle list unchanged, every old reference valid with the same meaning, the nodes left behind unreachable from every handle, the reachable part unchanged; the store really is full), oom_no_panic (result or out-of-memory are the only outcomes: no unwrap panics, no divergence), oom_exact (fails if and only if the table of the unbounded run does not fit; hence failing or not is independent of the recursor), oom_retry / oom_monotone (fits => succeeds with exactly that result; success is monotone in the capacity and independent of the recursor), oom_var_exact (variable creation), collected_ok + oom_recover (failure, handles dropped, collection = restriction to the reachable part: well-formed sub-table without the garbage of the failed attempt, and the retry is again 'correct result iff it fits'), concrete non-vacuity examples; C14_own_* (ownership on the error paths, model coq/Mgr/OomOwn*.v on the state of the C07 interleaving model: table with reference counts + multiset of owned edges, every clone_edge / drop_edge / get_or_insert / EdgeDropGuard / EdgeVecDropGuard / `?` explicit, guard placement of recursor.rs and apply_rec.rs; not, 8 binary operators, ite, substitute_prepare + substitute + substitute_edge, quant): own_balance (every outcome: the tokens owned afterwards are exactly the caller's plus - on Ok - one for the result: nothing leaked, nothing double-released; no hypothesis), own_counts (CInv = exact reference counts preserved by every outcome; WF and rc_exact_b of the snapshot), own_total (never stuck: no double release, no count underflow, get_or_insert preconditions, unwraps), own_err_collect (after Err the collection of ConcGc.v leaves exactly the nodes of the original table reachable from the caller's tokens, entry by entry - count included - the table a collection of the state before would give), own_balance_late_*_refuted (the seeded guard placements - recursor guards after the second `?`, vector guard of substitute_prepare only at the final Ok - violate balance and rollback on concrete inputs). Tie to the code: fault enumeration by capacity sweep on the real managers (see technique); required of every run: each operation returns out-of-memory or the result demanded by the extracted spec layer; no panic, abort or hang (watchdog, child process); after every operation - in particular after every failed one - the lifted manager passes the extracted audits wf_full_b (C03) and rc_first_bad/rc_exact_b (C05: exact reference counts, i.e. everything acquired was released), every earlier handle has its old value table, canonicity holds; after DROPALL + GC no node survives, the capacity probe fills the store completely (no slot was lost on any failure path), and the retry of the whole script succeeds without any out-of-memory when the capacity is at least the measured need; for kind=bdd, 1 thread, capacity < 100 the extracted bounded model (no cache, sequential recursor) run on the snapshot before each NOT / binary operator / ITE / VAR / NVAR predicts the implementation exactly; for every such NOT / binary operator / ITE (failing ones with 1 thread only) the extracted ownership model (coq/Mgr/OomOwnTie.v: snapshot -> state, own_inv_b = CInv must hold) is run as well and must have the same outcome, own exactly the harness's handles afterwards (a result being stored in its slot) and predict the table after the operation node by node up to renaming WITH its reference counts (garbage of a failed run included). Other rule sets (C14_bcdd_*, C14_zbdd_*, C14_mt_*; models coq/Mgr/OomBcdd.v, OomZbdd.v, OomMtbdd.v = the algorithms of the C02 / C09 / C10 models once more in the error monad, function by function, on the combinators of OomGen.v: gbind = `?`, gjoin2 = rec.binary / ternary / binary_ternary of either recursor, gfin = reduce(..)? + cache insertion): never_wrong (a result is literally the result of the unbounded model, hence the pointwise connective / set operation / arithmetic operation), safe (after Err: the invariant of the kind - BcOK / ZbddOK + tautology chain / MtOK - with a correct cache, table only extended, intact_c / intact_z / intact_m: handle list, order, every stored node and terminal unchanged, every valid edge with the same semc / semz / semk under every fuel, every handle the same value, added nodes unreachable from every handle, live part unchanged; store full), no_panic, exact (fails iff the table of the unbounded run does not fit; MTBDD: iff inner nodes OR terminals do not fit - get_terminal fails iff the value is new and all terminal slots are in use; ite / restrict never touch the terminal store), outcome independent of the recursor (bcdd, zbdd; the MTBDD code has no recursor), retry, monotone in the capacity (MTBDD: in both), for bcdd: the 8 operators (through apply_bin And/Xor and tag flips), ite, negation (a tag flip: total), var; zbdd: union / intsec / diff, not, the 8 Boolean operators (symm_diff; nand / nor / equiv as two phases; imp through ite), ite (incl. binary_ternary), singleton; mtbdd: the 6 arithmetic operators, ite, restrict, constant, var (three fallible steps); concrete non-vacuity tables with every outcome, garbage after a failure, recursors differing in the cache of the failed run, and the exactness theorem instantiated for ALL capacities. Tie: for kind=bcdd / zbdd (capacity < 100) and mtbdd the extracted bounded models run on the snapshot before each covered operation (bcdd: NOT / 8 operators / ITE / VAR / NVAR; zbdd: UNION / INTSEC / DIFF / NOT / 8 operators / ITE / SINGLETON / MAKENODE; mtbdd: ADD .. MAX / ITE / CONSTN / VAR / RESTRICT incl. the harness's cube construction step by step; both the node-capacity and the terminal-capacity sweep) predict out-of-memory or not, the stored nodes and (mtbdd) stored terminals afterwards - after a failed run the garbage - and the result's value table; bcok_b / zbdd_ok_b + zchain_ok_b / mt_ok_b (the hypotheses) are evaluated on every snapshot. TDD (package TDDx): tdd scripts (variables, constants, not, 8 three-valued connectives, ite, cofactors; 1 and 8 workers) are swept over every inner-node capacity 0..need+2 like the other kinds: every operation returns out-of-memory or the result demanded by the extracted fixed tables (prop=C11), no panic / abort / hang, after every operation - in particular every failed one - the lifted manager passes wf_full_b, td_ok_b, td_wf3_b (C03), rc_first_bad and the ternary audit td_rc_b (C05: everything acquired was released), every earlier handle keeps its value table over all 3^n assignments, canonicity holds; after DROPALL + GC no node survives, the ternary capacity probe T3FILL (single-node steps, all alive, until out-of-memory) finds every slot in use, and the retry of the script succeeds without out-of-memory when the capacity is at least the measured need.",
+    "level_note": "Partial / not proved: modelled with a budget are: plain BDD (apply_not, apply_bin for all 8 operators, apply_ite, var/not_var), BCDD (8 operators, ite, not, var/not_var), ZBDD (union / intsec / diff, not, 8 Boolean operators, ite, singleton, make_node), MTBDD (6 arithmetic operators, ite, restrict, constant, var; node and terminal budget); NOT modelled with a budget (fault enumeration only): quantification, substitution, restrict and pick_cube_dd of BDD / BCDD, ZBDD subset0 / subset1 / change / restrict / var_edge / pick, MTBDD value-table construction (a harness composite of the modelled operations), all rule sets' sat / eval queries (they do not allocate). The recovery theorems (drop + gc + retry, oom_recover_*) and the ownership model (C14_own_*) exist for the plain BDD rule set only; for the other kinds 'retry succeeds once space is free' is oom_retry (any table in which the result fits) + the enumeration's retry phase, and 'everything acquired is released' is the exact-count audit after every failed operation. The MTBDD algorithms have no parallel recursor in the code (always sequential), so there is no recursor parameter there. The parallel recursor is modelled as 'both branches run, in sequence' (the real interleaving of node creation between threads is not modelled; multi-threaded runs are checked by enumeration). Reference counts are not part of the model coq/Mgr/Oom.v ('releases everything it had acquired' = 'no node created by the failed run is reachable from a handle'); they are in the ownership model coq/Mgr/OomOwn*.v (C14_own_*: plain BDD rule set; not / binary operators / ite / substitute_prepare / substitute / substitute_edge / quant; restrict, apply_quant, pick_cube_dd and the other rule sets are not modelled there), whose correspondence run covers NOT / binary / ITE operations (successful ones with any number of threads, failing ones with one thread: table with counts after the operation); substitution and quantification of the ownership model are proof-only, the code's behaviour there is checked by the exact-count audit (rc_first_bad on the lifted snapshot after every failed operation = theorem own_counts on the code). The parallel recursor is sequentialised in the ownership model as well; terminal reference counts are not modelled (as in Conc.v). An a-priori (product) bound on the node need is not proved: oom_retry is stated relative to the nodes the unbounded run creates, which is what the check measures. gc is specified (collected = restriction to the reachable part) rather than modelled as an algorithm (that gc does this on the real manager is C05). Excluded by documented design: add_vars / manager creation for ZBDD and level_swap (reordering) call abort() on OOM - capacities below the number of ZBDD variables and reordering under exhausted capacity are not swept; DDDMP import under OOM is C15. Trusted: Coq kernel, extraction, the two OCaml drivers, Rust harness, public accessor API. TDD: no bounded (budget) model and no ownership model of the TDD rule set exist: for kind tdd the sweep is fault enumeration + end-state audit only (the c14 driver checks panics and the retry phase; the generic driver everything else).",
 }
 ALLOWED_AXIOMS = ()
 
